@@ -22,6 +22,7 @@ type vGenSess struct {
 	focus    string // property id the run is for (VERIF_ARGS focus=Cxx): biases the generator, never restricts soundness
 	lens     []int  // payload lengths of the latest write / data ops (what a reader may find queued)
 	forms    bool   // this session signals some remote candidates through non-canonical address literals
+	fl       []string // the in-flight datagrams as printed by the implementation ("src>dst:…"), for directed scenarios
 }
 
 // pickForms decides whether the session uses non-canonical literals (IPv4-mapped / expanded IPv6) for a
@@ -103,6 +104,7 @@ func (g *vGenSess) op(format string, a ...any) string {
 		if body != "" {
 			for _, d := range strings.Split(body, "|") {
 				g.inflight++
+				g.fl = append(g.fl, d)
 				if strings.Contains(d, ":REQ:A#") {
 					g.reqA++
 				}
@@ -177,6 +179,8 @@ func vAgentGen(o *vOut, r *vRand, thorough bool, args []string, emit func(string
 			singles = 2
 		}
 		switch {
+		case ((focus == "C03" || focus == "C06" || focus == "C20" || focus == "C07") && g.r.chance(1, 6)) || (focus == "" && g.r.chance(1, 30)):
+			g.prflxSelSupersede()
 		case (focus == "C20" && g.r.chance(1, 4)) || (focus == "" && g.r.chance(1, 25)) || (focus == "C06" && g.r.chance(1, 10)):
 			g.renomPrflx()
 		case g.r.intn(10) < singles:
@@ -694,6 +698,106 @@ func (g *vGenSess) peerAct(addrA, net0, nrem, roleA int) {
 		spec += fmt.Sprintf(",nom=%d", 1+r.intn(6))
 	}
 	g.op("inject A %d %d %s", addrA, src, spec)
+}
+
+// flop issues deliver/drop for the in-flight datagram at index k of g.fl (the hub removes it before the
+// op's own emissions are appended) and keeps g.fl / g.inflight in step.
+func (g *vGenSess) flop(kind string, k int) {
+	g.fl = append(g.fl[:k:k], g.fl[k+1:]...)
+	g.inflight--
+	g.op("%s %d", kind, k)
+}
+
+// prflxSelSupersede (directed): the controlled agent B learns the controlling agent's SECOND address only
+// as a peer-reflexive candidate, through a renomination that arrives from it (deferred: the pair is not
+// valid yet); B has one or two local candidates, so the prflx remote sits in one or two pairs.  The
+// signalled candidate for that address then supersedes the prflx one at a chosen moment: while the deferred
+// nomination is still waiting for B's own check, or after B selected the prflx pair.  Selection, pair ids,
+// states, statistics and the deferred nomination value must survive the supersession, and only the pair
+// that was checked and nominated may be selected.
+func (g *vGenSess) prflxSelSupersede() {
+	r := g.r
+	g.hasB = true
+	g.fl = nil
+	g.o.stat("sess.prflxsupersede")
+	if g.focus == "C06" {
+		g.pickForms()
+	}
+	g.op("new renom=1,tb=9,u=uA0,p=pA0%s tb=5,u=uB0,p=pB0%s", []string{"", ",ka=0", ",ci=50"}[r.intn(3)], []string{"", ",ucp=1", ",pw=0"}[r.intn(3)])
+	x1, x2, y1, y2 := 16, 32, 176, 192
+	twoB := r.chance(2, 3)
+	p1, p2 := 2130706431, []int{2130706430, 100, 2130706431}[r.intn(3)]
+	g.op("addlocal A 1 0 %d %d -", x1, p1)
+	g.op("addlocal A 1 0 %d %d -", x2, p2)
+	// the order of B's locals decides whether the nominated pair is the first or the last sibling in the checklist
+	if twoB && r.chance(1, 2) {
+		g.op("addlocal B 1 0 %d %d -", y2, g.prio())
+		g.op("addlocal B 1 0 %d %d -", y1, g.prio())
+	} else {
+		g.op("addlocal B 1 0 %d %d -", y1, g.prio())
+		if twoB {
+			g.op("addlocal B 1 0 %d %d -", y2, g.prio())
+		}
+	}
+	g.op("addremote A 1 0 %d %d -", y1, g.prio())
+	g.op("addremote B 1 0 %d %d -", x1, p1)
+	g.op("start A 1 uB0 pB0")
+	g.op("start B 0 uA0 pA0")
+	fromX2 := fmt.Sprintf("%d>", x2)
+	pump := func(rounds int, dropX2 bool) {
+		for i := 0; i < rounds; i++ {
+			g.op("adv %d", []int{20, 50, 100}[r.intn(3)])
+			for guard := 0; len(g.fl) > 0 && guard < 300; guard++ {
+				if dropX2 && strings.HasPrefix(g.fl[0], fromX2) {
+					g.flop("drop", 0)
+				} else {
+					g.flop("deliver", 0)
+				}
+			}
+		}
+	}
+	pump(6+r.intn(4), true) // connect over x1 only; x2 stays unknown to B
+	v := 1 + r.intn(3)
+	g.op("renom A %d 0 %d", x2, v)
+	// hand B the renomination (and whatever else is in flight that does not come from x2)
+	for k := 0; k < len(g.fl); {
+		if strings.HasPrefix(g.fl[k], fromX2) && !strings.Contains(g.fl[k], "nom="+fmt.Sprint(v)) {
+			g.flop("drop", k)
+		} else {
+			g.flop("deliver", k)
+		}
+	}
+	supersede := func() { g.op("addremote B 1 0 %d %d -%s", x2, p2, g.fm()) }
+	switch r.intn(4) {
+	case 0: // while the deferred nomination waits for B's own check
+		supersede()
+		pump(3, false)
+	case 1: // after B validated and selected the prflx pair
+		pump(3, false)
+		supersede()
+		pump(2, false)
+	case 2: // somewhere in between, with a second renomination around it
+		for i := 0; i < 2+r.intn(5) && len(g.fl) > 0; i++ {
+			g.flop("deliver", r.intn(len(g.fl)))
+		}
+		supersede()
+		if r.chance(1, 2) {
+			v += 1 + r.intn(2)
+			g.op("renom A %d 0 %d", []int{x1, x2}[r.intn(2)], v)
+		}
+		pump(3, false)
+	default: // the signalled candidate arrives twice (second one is a duplicate), data flows meanwhile
+		pump(1+r.intn(2), false)
+		g.op("write A %d 0", 10+r.intn(90))
+		g.op("write B %d 0", 10+r.intn(90))
+		supersede()
+		pump(1, false)
+		supersede()
+		pump(2, false)
+	}
+	g.op("read A")
+	g.op("read B")
+	pump(3, false)
 }
 
 // renomPrflx: a renomination that reaches the controlled side on a pair whose remote is still
